@@ -133,7 +133,10 @@ def gen(
             "rt",
         ) as f:
             imports = "".join(
-                map(to_code, get_at_root(ast.parse(f.read()), (Import, ImportFrom)))
+                map(
+                    lambda node: "{}\n".format(to_code(node).rstrip("\n")),
+                    get_at_root(ast.parse(f.read()), (Import, ImportFrom)),
+                )
             )
 
     module_path, _, symbol_name = input_mapping.rpartition(".")
